@@ -76,9 +76,18 @@ func writeDesignMD() {
 		if ss := seeds[id]; len(ss) > 0 {
 			fmt.Printf("*Seeded changes (written blind by sub-agents, confirmed, kept under `seeded/`):*\n\n")
 			for _, s := range ss {
-				det := "**missed**"
+				det := "**not reported** (known blind spot)"
 				if len(s.Detected) > 0 {
 					det = "reported by " + strings.Join(s.Detected, ", ")
+					own := false
+					for _, d := range s.Detected {
+						if d == id {
+							own = true
+						}
+					}
+					if !own {
+						det += " (**not by " + id + " itself**)"
+					}
 				}
 				fmt.Printf("- `%s` %s — %s\n", s.Dir, strings.TrimSpace(s.Summary), det)
 			}
